@@ -5,7 +5,7 @@ from .core import Engine
 from .solve import discharge
 
 
-def run_bundle(bundle, root='/repo', only=None, timeout_ms=60000):
+def run_bundle(bundle, root="/repo", only=None, timeout_ms=150000):
     repo = Repo(root)
     mod = importlib.import_module('contracts.' + bundle)
     D = mod.build(repo)
